@@ -494,4 +494,71 @@ def rule_ncon(ctx):
     return r
 
 
-RULES = [rule_ellipsis, rule_implicit, rule_interleaved, rule_single, rule_canon, rule_ncon]
+def _strips_blanks(e):
+    """`X.replace(" ", "")`, `"".join(X.split())`, `re.sub(r"\\s+", "", X)` somewhere in the expression."""
+    for c in ast.walk(e):
+        if isinstance(c, ast.Call) and isinstance(c.func, ast.Attribute):
+            if c.func.attr == "replace" and len(c.args) >= 2 and isinstance(c.args[0], ast.Constant) and c.args[0].value == " " \
+                    and isinstance(c.args[1], ast.Constant) and c.args[1].value == "":
+                return True
+            if c.func.attr == "join" and isinstance(c.func.value, ast.Constant) and c.func.value.value == "" and c.args and \
+                    any(isinstance(x, ast.Call) and isinstance(x.func, ast.Attribute) and x.func.attr == "split" and not x.args for x in ast.walk(c.args[0])):
+                return True
+            if c.func.attr == "translate":
+                return True
+        if isinstance(c, ast.Call) and dotted(c.func) in ("re.sub",) and len(c.args) >= 2 and isinstance(c.args[1], ast.Constant) and c.args[1].value == "":
+            return True
+    return False
+
+
+def rule_blanks(ctx):
+    """(defect F30) numpy ignores blanks in the subscripts string (`'ij, jk -> ik'`); every symbol of the string
+    the front end splits becomes an index label, so a blank that survives is a label of its own (size mismatch,
+    or — in the shape-only interfaces — silently another network).  On every CFG path from the place the caller's
+    string is taken out of `args` to the call that splits it, the string is re-bound to a blank-free copy (or the
+    splitter does that itself before its first `split`)."""
+    r = RuleResult("C12-BLANKS", "blanks in the equation string are dropped before it is split", 1)
+    f = ctx.p.func(C.UTILS, "parse_einsum_input")
+    g = ctx.p.func(C.UTILS, "parse_equation_ellipses")
+    C.require(f is not None and g is not None, "parse_einsum_input / parse_equation_ellipses not found")
+    fl = ctx.flow(f)
+    cfg = fl.cfg
+    k = ctx.key(f, "C12-BLANKS")
+    # the splitter may normalise on its own
+    gp = [a.arg for a in g.node.args.args][0]
+    first_split = min((n.lineno for n in walk_local(g.node) if isinstance(n, ast.Call) and isinstance(n.func, ast.Attribute)
+                       and n.func.attr == "split" and dotted(n.func.value) == gp), default=None)
+    own = any(isinstance(n, ast.Assign) and any(isinstance(t, ast.Name) and t.id == gp for t in n.targets) and _strips_blanks(n.value)
+              and (first_split is None or n.lineno < first_split) for n in walk_local(g.node))
+    calls = [(n, c) for n, c in fl.calls() if dotted(c.func) == "parse_equation_ellipses" and c.args]
+    C.require(calls, "parse_einsum_input: call of parse_equation_ellipses not found")
+    p0 = [a.arg for a in f.node.args.args][0]
+    births, eqn = [], None
+    for n in cfg.nodes:
+        st = n.ast
+        if n.kind == "stmt" and isinstance(st, ast.Assign) and isinstance(st.value, ast.Name) and st.value.id == p0:
+            for t in st.targets:
+                if isinstance(t, (ast.Tuple, ast.List)) and t.elts and isinstance(t.elts[0], ast.Name):
+                    births.append(n)
+                    eqn = t.elts[0].id
+    C.require(births, "parse_einsum_input: `eq, *arrays = args` not found")
+    strips = [n.id for n in cfg.nodes if n.kind == "stmt" and isinstance(n.ast, ast.Assign)
+              and any(isinstance(t, ast.Name) and t.id == eqn for t in n.ast.targets) and _strips_blanks(n.ast.value)]
+    bad = None
+    for cn, c in calls:
+        if _strips_blanks(c.args[0]) or own:
+            continue
+        for b in births:
+            p_ = cfg.path_avoiding(b.id, strips, cn.id)
+            if p_ is not None:
+                bad = (c, p_)
+    if bad:
+        r.violation(k, C.loc(f, bad[0]), "the caller's equation string reaches `parse_equation_ellipses` — which splits it into one label per "
+                    "character — with its blanks: `einsum('ij, jk -> ik', a, b)`, which numpy accepts, raises (or, with shapes only, "
+                    "describes another network)", path=cfg.describe_path(bad[1]))
+    else:
+        r.ok(k, C.loc(f, calls[0][1]), "the string is re-bound to a blank-free copy on every path to the splitter")
+    return r
+
+
+RULES = [rule_blanks, rule_ellipsis, rule_implicit, rule_interleaved, rule_single, rule_canon, rule_ncon]
